@@ -49,6 +49,16 @@ static int G_futex_wait(int* addr, int expected) {
   return nondet_int() ? -1 : 0;
 }
 
+/* FUTEX_WAIT on a caller-supplied value (waitUntilChanged): a stale expected value is harmless (the kernel returns at once), parking on the
+ * completed value is not: after completion nobody wakes the word again */
+static int G_futex_wait_value(int* addr, int expected) {
+  __CPROVER_assert(expected != g_completed, "a waiter never parks on the completed value");
+  g_waits++;
+  int nd; *addr = nd; g_loaded = 0;
+  g_errno = nondet_int();
+  return nondet_int() ? -1 : 0;
+}
+
 /* ---------------- CompletionEventImpl ---------------- */
 void CEI_notify(CompletionEventImpl* self, int completedStatus)
 __CPROVER_ensures(self->status_ == completedStatus)
@@ -65,6 +75,13 @@ __CPROVER_ensures(g_stores == __CPROVER_old(g_stores) && g_wakes == __CPROVER_ol
 __CPROVER_assigns(self->status_, g_last_loaded, g_loaded, g_waits, g_last_mo, g_errno)
 #include "CEI_wait.body.inc"
 
+void CEI_waitUntilChanged(CompletionEventImpl* self, int currentValue)
+/* the caller must not ask to sleep on the completed value (that sleep is never ended by notify: a lost wake-up) */
+__CPROVER_requires(currentValue != g_completed)
+__CPROVER_ensures(g_stores == __CPROVER_old(g_stores) && g_wakes == __CPROVER_old(g_wakes))
+__CPROVER_assigns(self->status_, g_loaded, g_waits, g_errno)
+#include "CEI_waitUntilChanged.body.inc"
+
 /* ---------------- Latch ---------------- */
 /* std::latch contract: n <= current count (and the count fits an int) */
 void Latch_count_down(Latch* self, uint32_t n)
@@ -78,6 +95,8 @@ __CPROVER_ensures(self->impl_.status_ == 0 && __CPROVER_old(self->impl_.status_)
 __CPROVER_assigns(self->impl_.status_, g_stores, g_wakes, g_wake_after_store, g_last_mo)
 #include "Latch_count_down.body.inc"
 
+bool Latch_try_wait(const Latch* self);
+void Latch_wait(const Latch* self);
 void Latch_arrive_and_wait(Latch* self)
 __CPROVER_requires(self->impl_.status_ >= 1 && g_completed == 0)
 /* the last arriver wakes everybody; every other arriver returns only after loading 0 */
@@ -87,7 +106,7 @@ __CPROVER_assigns(self->impl_.status_, g_stores, g_wakes, g_wake_after_store, g_
 #include "Latch_arrive_and_wait.body.inc"
 
 bool Latch_try_wait(const Latch* self)
-__CPROVER_ensures(RV == (self->impl_.status_ == 0) && MO_HAS_ACQUIRE(g_last_mo))
+__CPROVER_ensures(RV == (self->impl_.status_ == 0) && MO_HAS_ACQUIRE(g_last_mo) && g_loaded && g_last_loaded == self->impl_.status_)
 __CPROVER_assigns(g_last_loaded, g_loaded, g_last_mo)
 #include "Latch_try_wait.body.inc"
 
@@ -104,5 +123,6 @@ void h_CEI_wait(void) { GHOST_RESET(); CompletionEventImpl s; int status0 = nond
 void h_Latch_count_down(void) { GHOST_RESET(); Latch s; int count0 = nondet_int(); s.impl_.status_ = count0; uint32_t n; Latch_count_down(&s, n); }
 void h_Latch_arrive_and_wait(void) { GHOST_RESET(); Latch s; int count0 = nondet_int(); s.impl_.status_ = count0; Latch_arrive_and_wait(&s); }
 void h_Latch_try_wait(void) { GHOST_RESET(); Latch s; int count0 = nondet_int(); s.impl_.status_ = count0; Latch_try_wait(&s); }
+void h_CEI_waitUntilChanged(void) { GHOST_RESET(); CompletionEventImpl s; int status0 = nondet_int(); s.status_ = status0; int c; CEI_waitUntilChanged(&s, c); }
 void h_Latch_wait(void) { GHOST_RESET(); Latch s; int count0 = nondet_int(); s.impl_.status_ = count0; Latch_wait(&s); }
 #endif
